@@ -167,6 +167,7 @@ VERIF_TARGET(c23_template, nullptr, 140, 2000,
              "distinct = history shape + option modes + number of included transactions")
 {
     MempoolSimOpts o = PickHistoryConfig(s, st);
+    o.with_mempool_checks = false; // CTxMemPool::check() after every ATMP is C22's extra monitor; here it would only cost time (256 KiB cache per call)
     MempoolSim ms(o);
     TemplateOracle oracle{ms, s, st};
     HistoryHooks hooks;
